@@ -48,7 +48,9 @@ pub fn gen_entry(rng: &mut Rng, pattern: Option<&[bool]>) -> Entry {
     let mut attrs = vec![];
     let forced = rng.usize(nattrs.max(1));
     for i in 0..nattrs {
-        let name = format!("{}{}", ["cn", "jpegPhoto", "a;binary", "1.2.3", "x-é", ""][rng.usize(6)], i);
+        // (the index keeps names distinct; it goes before the options so that real option names such as
+        // ";binary" occur: classification depends on the values only, never on the attribute description)
+        let name = format!("{}{}{}", ["cn", "jpegPhoto", "userCertificate", "1.2.3.", "x-é", ""][rng.usize(6)], i, ["", "", ";binary", ";lang-en;BINARY", ";x-opt"][rng.usize(5)]);
         let vals: Vec<Vec<u8>> = match pattern {
             Some(p) if i == forced => p.iter().map(|&valid| if valid { gen_valid(rng) } else { gen_invalid(rng) }).collect(),
             _ => {
@@ -111,6 +113,11 @@ pub fn check_entry(e: &Entry, rng: &mut Rng, rep: &mut Report, replay: Value) {
             return;
         }
     };
+    compare_entry(e, &se, rep, replay);
+    rep.case(Some(fnv(&bytes)));
+}
+
+pub fn compare_entry(e: &Entry, se: &SearchEntry, rep: &mut Report, replay: Value) {
     if se.dn != e.dn {
         rep.violation("C15:dn-differs", format!("{:?} vs {:?}", se.dn, e.dn), replay.clone());
     }
@@ -158,7 +165,72 @@ pub fn check_entry(e: &Entry, rng: &mut Rng, rep: &mut Report, replay: Value) {
     if se.attrs.len() + se.bin_attrs.len() != e.attrs.len() {
         rep.violation("C15:attribute-count-differs", format!("{} + {} vs {}", se.attrs.len(), se.bin_attrs.len(), e.attrs.len()), replay);
     }
-    rep.case(Some(fnv(&bytes)));
+}
+
+/// The same oracle on entries that travelled through a connection (search() on the in-memory
+/// transport), among them entries far larger than any read buffer: what construct() is given is what the
+/// server sent.
+pub fn through_connection(ctx: &Ctx) -> Report {
+    use crate::msg::{resp_node, Res, Resp};
+    use crate::world::{connect, runtime};
+    let n = ctx.n(3_000, 1_000_000);
+    par_cases(ctx, "through_connection", n, ctx.secs(20, 300), |i, rng, rep| {
+        let count = 1 + rng.usize(4);
+        let mut entries: Vec<Entry> = (0..count).map(|_| gen_entry(rng, None)).collect();
+        // one entry in three carries a large value (photo / certificate sized, up to ~300 KB)
+        if rng.chance(1, 3) && !ctx.tiny {
+            let k = rng.usize(count);
+            let big = *rng.pick(&[17_000usize, 40_000, 70_000, 300_000]);
+            let v: Vec<u8> = if rng.bool() { vec![b'a'; big] } else { let mut b = vec![0xffu8; big]; b[0] = 0xd8; b };
+            entries[k].attrs.push((format!("jpegPhoto{}", 99), vec![v]));
+        }
+        for (k, e) in entries.iter_mut().enumerate() {
+            e.dn = format!("cn=e{},dc=x", k);
+        }
+        let rt = runtime(rng.next());
+        let ents = entries.clone();
+        let mut erng = rng.fork();
+        let out = rt.block_on(async move {
+            let c = connect();
+            let mut ldap = c.ldap;
+            let mut server = c.server;
+            let srv = tokio::spawn(async move {
+                if let Some(w) = server.request().await {
+                    if let Ok(m) = w.msg {
+                        for e in &ents {
+                            let n = ber::seq(vec![ber::integer(m.id), entry_node(e)]);
+                            server.send(&Enc::random(&mut erng).to_vec(&n));
+                        }
+                        server.send(&ber::encode_min(&resp_node(m.id, &Resp::Done(Res::ok("done")), None)));
+                    }
+                }
+                server.wait_closed().await;
+            });
+            let r = crate::world::watchdog(ldap.search("dc=x", ldap3::Scope::Subtree, "(a=b)", vec!["*"])).await;
+            drop(ldap);
+            srv.abort();
+            let _ = c.driver.await;
+            r
+        });
+        let replay = json!({"lane":"through_connection","case":i});
+        match out {
+            Ok(Ok(res)) => {
+                if res.0.len() != entries.len() {
+                    rep.violation("C15:through-connection:entry-count-differs", format!("{} returned, {} sent", res.0.len(), entries.len()), replay.clone());
+                }
+                for (e, re) in entries.iter().zip(res.0.into_iter()) {
+                    match guarded(|| SearchEntry::construct(re)) {
+                        Ok(se) => compare_entry(e, &se, rep, replay.clone()),
+                        Err(p) => rep.violation(format!("C15:construct-panic@{}", p.site()), format!("{:?}", p), replay.clone()),
+                    }
+                }
+            }
+            Ok(Err(e)) => rep.violation("C15:through-connection:search-failed", format!("{} (largest value {} bytes)", e, entries.iter().flat_map(|e| e.attrs.iter()).flat_map(|a| a.1.iter()).map(|v| v.len()).max().unwrap_or(0)), replay.clone()),
+            Err(()) => rep.violation("C15:through-connection:search-hangs", String::new(), replay.clone()),
+        }
+        rep.max("largest_value_bytes", entries.iter().flat_map(|e| e.attrs.iter()).flat_map(|a| a.1.iter()).map(|v| v.len()).max().unwrap_or(0) as u64);
+        rep.case(Some(fnv(format!("{:?}", entries.iter().map(|e| (e.dn.clone(), e.attrs.len())).collect::<Vec<_>>()).as_bytes()) ^ i));
+    })
 }
 
 pub fn random(ctx: &Ctx) -> Report {
